@@ -1054,7 +1054,9 @@ func partD(run *ev.Run, total *report) {
 			// D2 / D3 work on the instructions of the builder output
 			ri, ok := refParse(base)
 			if !ok {
-				ev.Fatal("part D: builder output %s does not parse", short(base))
+				// the builders' own output is not a parsable program: builder and parser disagree
+				r.violation("builder-output-does-not-parse", fmt.Sprintf("part D: the program %s built by %s (payload length %d) does not parse", short(base), j.sb.name, j.l), map[string]interface{}{"program": fmt.Sprintf("%x", base), "builder": j.sb.name, "payload_length": j.l})
+				return
 			}
 			alts := make([][][]byte, len(ri))
 			for i, in := range ri {
